@@ -406,7 +406,9 @@ fn expand(sh: &Shared, w: &Worker, node: &Node, alpha: &[MsgSpec], lo: usize, hi
         }
         if out.changed {
             if want_succ {
-                if out.findings.is_empty() && !out.panicked && ru::invariants(&out.post.zone()).is_empty() {
+                // a signed zone whose published key the update removed is outside what is judged
+                let key_gone = out.observations.contains(&"obs:dnssec:update-deleted-the-dnskey-rrset");
+                if out.findings.is_empty() && !out.panicked && !key_gone && ru::invariants(&out.post.zone()).is_empty() {
                     let mut h = node.history.clone();
                     h.push(msg.clone());
                     succ.push(Node { cfg: node.cfg, history: h, key: out.post.key(cfg.serial0) });
@@ -513,6 +515,11 @@ fn main() {
             let dn = case["dnssec_enabled"].as_bool().unwrap_or(false);
             let (env, snap) = rebuild(&w, &zone, dn, &history);
             let pre = Pre::of(&w, &env, snap, dn);
+            if dn && history.is_empty() {
+                for (scene, what) in pre.dnssec.iter().flatten() {
+                    l.violation(&format!("{scene}:freshly-signed-zone"), what, || json!({"dnssec_enabled": true, "initial_zone": case["initial_zone"], "history": [], "message": case["message"]}));
+                }
+            }
             let out = step(&w, &env, &pre, &msg, 1000);
             l.eval();
             for f in &out.findings {
@@ -560,7 +567,7 @@ fn main() {
          next to each of 3 normally effective atoms (add A a.z., delete RRset a.z. A, add TXT b.z.) in both orders (thorough: also in the middle \
          of two of them), applied as one further step from every state at depth <= 1 of every root. Roots = 4 initial zones at serial 1 \
          and a zone at serials 0, 2^31-1 and 2^32-2. BFS: full M1 from every state up to the tier's full depth, M1-core below it to the tier's \
-         core depth, M2 as one further step from every state up to its depth; canonical key = zone content + empty RRset keys + serial \
+         core depth (quick: the deepest level only from every second state of the minimal root), M2 as one further step from every state up to its depth; canonical key = zone content + empty RRset keys + serial \
          delta; only conforming successors are expanded. Oracle per transition: vref::update (RFC 2136 3.2/3.4 pseudocode, RFC 1982) on the \
          raw request bytes and the implementation's pre-state: rcode in the acceptable set, rejected => unchanged, accepted => zone equals an \
          acceptable reference zone, invariants (one SOA, apex NS, CNAME alone), serial strictly advanced iff content changed. Non-trivial = \
@@ -593,9 +600,21 @@ fn main() {
                 let bad = dnssec::check(&dnssec::view(&w.rt.block_on(env.save())), vupd::NOW);
                 let mut loaded = snap.clone();
                 loaded.rrs.retain(|r| r.rtype != dnssec::T_DNSKEY);
-                if !bad.is_empty() || loaded.content() != (Snap { rrs: want.clone(), empty_keys: vec![] }).content() {
-                    ctx.machinery_failure(&format!("the freshly signed initial zone {} is not judged well-formed: {bad:?}", cfg.name));
+                if loaded.content() != (Snap { rrs: want.clone(), empty_keys: vec![] }).content() {
+                    ctx.machinery_failure(&format!("the signed initial zone {} does not load as written", cfg.name));
                 }
+                // signed by the real add_zone_signing_key_mut + secure_zone_mut: must be well-formed
+                ctx.with_local(|l| {
+                    l.eval();
+                    for (scene, what) in &bad {
+                        l.violation(&format!("{scene}:freshly-signed-zone"), &format!("the zone {} as signed by secure_zone_mut() is not well-formed: {what}", cfg.name), || {
+                            json!({"dnssec_enabled": true, "initial_zone": cfg.zone.iter().map(vupd::rr_json).collect::<Vec<_>>(), "history": [], "message": Msg::default().to_json()})
+                        });
+                    }
+                    if bad.is_empty() {
+                        l.outcome("obs:dnssec:freshly-signed-zone-well-formed");
+                    }
+                });
             } else if snap.rrs != want || !snap.empty_keys.is_empty() {
                 ctx.machinery_failure(&format!("initial zone {} does not load as written: {:?}", cfg.name, snap.text()));
             }
@@ -637,6 +656,11 @@ fn main() {
         for (ni, n) in frontier.iter().enumerate() {
             let cfg = &cfgs[n.cfg];
             if cfg.dnssec && depth >= d_dnssec {
+                continue;
+            }
+            if !thorough && depth >= 2 && (n.cfg >= 1 || n.key % 2 == 1) && !cfg.serial_focus {
+                // quick: the deepest level only from the minimal zone, every second state
+                // (a deterministic slice by state key)
                 continue;
             }
             let a = if cfg.serial_focus {
